@@ -19,7 +19,7 @@ RULE = (
     "before its first error followed by an exception of the same class, text and location; both end like yield; "
     "accepted + rejected == number of data rows. Fault injection at every row boundary k: delimited file with an "
     "undecodable byte / an unterminated quote starting in row k, fixed stream and file with a short last record / "
-    "an undecodable byte in row k / an input cut inside a CRLF delimiter / a line delimiter the setting forbids, ODS and XLSX truncated at several offsets or with a corrupted end: every mode "
+    "an undecodable byte in row k / an input cut inside a CRLF delimiter / a line delimiter the setting forbids, ODS and XLSX truncated at several offsets, with a corrupted end or with damaged compressed cell data: every mode "
     "must deliver a prefix of the fault-free output and then raise DataFormatError. Non-trivial: >= 1 rejected row "
     "that is not the last, or a fault with >= 1 row before it; distinct by hash of (CID rows, table, fault)."
 )
@@ -136,8 +136,8 @@ def check_case(sub, case):
 FAULTS = {
     "delimited": ["undecodable-byte", "unterminated-quote"],
     "fixed": ["short-record", "undecodable-byte", "short-record-stream", "cut-line-delimiter", "wrong-line-delimiter"],
-    "ods": ["truncate", "corrupt-end", "not-a-zip"],
-    "excel": ["truncate", "corrupt-end", "not-a-zip"],
+    "ods": ["truncate", "corrupt-end", "not-a-zip", "corrupt-payload", "corrupt-payload"],
+    "excel": ["truncate", "corrupt-end", "not-a-zip", "corrupt-payload", "corrupt-payload"],
 }
 
 
@@ -209,7 +209,23 @@ def _inject(spec, rows, fault, k, fraction, tmpdir):
     source, _ = gen_tables.write_source(spec, rows, tmpdir, "path", name="whole")
     with open(source, "rb") as f:
         data = f.read()
-    if fault == "truncate":
+    if fault == "corrupt-payload":
+        # damage the compressed bytes of the member that holds the cells (the archive directory stays intact)
+        import struct
+        import zipfile
+
+        with zipfile.ZipFile(source) as archive:
+            infos = [i for i in archive.infolist() if i.filename == "content.xml" or "worksheets/sheet" in i.filename]
+            info = infos[fraction % len(infos)]
+        name_length, extra_length = struct.unpack("<HH", data[info.header_offset + 26:info.header_offset + 30])
+        start = info.header_offset + 30 + name_length + extra_length
+        size = max(1, info.compress_size)
+        if fraction % 3 == 0:
+            data = data[:start] + b"\x07" + data[start + 1:]
+        else:
+            at = start + (fraction * size // 100) % size
+            data = data[:at] + b"\xff" * min(8, start + size - at) + data[at + min(8, start + size - at):]
+    elif fault == "truncate":
         data = data[: max(1, len(data) * fraction // 100)]
     elif fault == "corrupt-end":
         cut = max(1, min(len(data) - 1, len(data) - 1 - fraction))
@@ -249,14 +265,14 @@ def check_fault(sub, case):
             if ended is None:
                 plain = [i if i[0] == "row" else i[:2] for i in items]
                 plain_base = [i if i[0] == "row" else i[:2] for i in _expected_for(mode, base_items)]
-                if fault in ("truncate", "corrupt-end") and plain == plain_base:
+                if fault in ("truncate", "corrupt-end", "corrupt-payload") and plain == plain_base:
                     sub.cls("fault-harmless")  # the damage did not touch what is read
                     continue
                 sub.fail("C06|fault-swallowed|%s" % where, case,
                          "fault %s at row %d: reading ended normally with %r" % (fault, k, items))
                 continue
             if isinstance(ended, errors.CheckError):
-                if fault in ("truncate", "corrupt-end"):
+                if fault in ("truncate", "corrupt-end", "corrupt-payload"):
                     sub.cls("fault-harmless")
                     continue
                 sub.fail("C06|fault-swallowed|%s" % where, case,
